@@ -20,7 +20,7 @@ RULE = ("cases: (target, platform, text) with target in the 11 exported construc
         "newlines with random indentation; valid lines / ACLs / configurations that are truncated, permuted or "
         "have one token replaced; empty and whitespace-only input; size extremes of every recursive or regex "
         "front end (long token repetitions, thousands of leading numeric tokens, deep indentation). Oracle: the "
-        "call returns or raises ValueError / TypeError (subclasses included) within a 20 s non-termination alarm; "
+        "call returns or raises ValueError / TypeError (subclasses included) within a 30 s non-termination alarm; "
         "on ios / nxos whatever is returned renders text the same constructor accepts again. Buckets by (target, "
         "exception type, innermost library frame) resp. (target, kind of the first parse). Non-trivial: >= 3 "
         "tokens and the target returned an object or rejected the text at least two library frames deep; "
@@ -28,11 +28,11 @@ RULE = ("cases: (target, platform, text) with target in the 11 exported construc
 ASSUMPTIONS = ["ValueError / TypeError and their subclasses (NetmaskValueError, AddressValueError, InvalidVersion, "
                "NetportsValueError) are the documented errors",
                "the re-accept clause is judged on the documented platforms ios and nxos only",
-               "a 20 s alarm detects non-termination; a hit is re-run three times before it counts"]
+               "a 30 s alarm detects non-termination; a hit is re-run three times before it counts"]
 
 TARGETS = ["Ace", "Remark", "AceGroup", "Acl", "Address", "AddressAg", "AddrGroup", "Port", "Protocol", "Option",
            "Wildcard", "acls", "aces", "addrgroups"]
-ALARM_S = 20
+ALARM_S = 30
 
 
 class _Timeout(Exception):
@@ -391,5 +391,5 @@ MANIFEST = {
     "engine": "hypothesis + atheris (coverage-guided campaign: 4 jobs x 12 s in the quick tier, 16 jobs x 240 s in the thorough tier, fuzz/fuzz_text.py)",
     "technique": "property-based fuzzing: Hypothesis token-soup / mutated-valid-text generators over a vocabulary extracted from the library source, enumerated size extremes of every recursive or regex front end, exception bucketing by innermost library frame, and a coverage-guided atheris (libFuzzer) campaign through a structured decoder",
     "text": "exploration: tens of thousands (quick) / hundreds of thousands (thorough) generated texts through the 11 constructors and 3 config functions on ios / nxos / asa returned or raised ValueError/TypeError within the non-termination alarm, and every returned object rendered text its constructor accepted again, apart from the listed known findings",
-    "note": "trusted: the 20 s alarm as non-termination detector (re-run 3 times); re-accept clause judged on ios and nxos only; cannot prove termination or absence of catastrophic backtracking, only bound it on generated and adversarially repeated inputs",
+    "note": "trusted: the 30 s alarm as non-termination detector (re-run 3 times); re-accept clause judged on ios and nxos only; cannot prove termination or absence of catastrophic backtracking, only bound it on generated and adversarially repeated inputs",
 }
